@@ -16,6 +16,8 @@ mod refs;
 pub use refs::ShellRef;
 
 mod completeness;
+#[cfg(brush_verif)]
+pub use completeness::verif_needs_more_input;
 mod term_detection;
 mod term_integration;
 mod trace_categories;
